@@ -70,7 +70,7 @@ def solid_l_fluid_auto {K : Type} [Add K] [Sub K] [Mul K] [Div K] [Neg K]
 def solid_t_fluid {K : Type} [Add K] [Sub K] [Mul K] [Div K] [Neg K]
     (o : Ops K) (alpha_t : K) (rho_fluid : K) (rho_solid : K) (c_fluid : K) (c_l : K) (c_t : K) (alpha_fluid : K) (alpha_l : K) : K × K × K :=
   let N := (fluid_solid_n o alpha_fluid alpha_l alpha_t rho_fluid rho_solid c_fluid c_l c_t)
-  let reflection_l := ((o.sin ((o.ofNat 4) * alpha_t)) / N)
+  let reflection_l := ((-(o.sin ((o.ofNat 4) * alpha_t))) / N)
   let ct_cl2 := ((c_t * c_t) / (c_l * c_l))
   let cos_2_alpha_t := (o.cos ((o.ofNat 2) * alpha_t))
   let reflection_t := (((((ct_cl2 * (o.sin ((o.ofNat 2) * alpha_l))) * (o.sin ((o.ofNat 2) * alpha_t))) - (cos_2_alpha_t * cos_2_alpha_t)) - ((((rho_fluid * c_fluid) / (rho_solid * c_l)) * (o.cos alpha_l)) / (o.cos alpha_fluid))) / N)
@@ -83,7 +83,7 @@ def solid_t_fluid_auto {K : Type} [Add K] [Sub K] [Mul K] [Div K] [Neg K]
   let alpha_fluid := (snell_angles o alpha_t c_t c_fluid)
   let alpha_l := (snell_angles o alpha_t c_t c_l)
   let N := (fluid_solid_n o alpha_fluid alpha_l alpha_t rho_fluid rho_solid c_fluid c_l c_t)
-  let reflection_l := ((o.sin ((o.ofNat 4) * alpha_t)) / N)
+  let reflection_l := ((-(o.sin ((o.ofNat 4) * alpha_t))) / N)
   let ct_cl2 := ((c_t * c_t) / (c_l * c_l))
   let cos_2_alpha_t := (o.cos ((o.ofNat 2) * alpha_t))
   let reflection_t := (((((ct_cl2 * (o.sin ((o.ofNat 2) * alpha_l))) * (o.sin ((o.ofNat 2) * alpha_t))) - (cos_2_alpha_t * cos_2_alpha_t)) - ((((rho_fluid * c_fluid) / (rho_solid * c_l)) * (o.cos alpha_l)) / (o.cos alpha_fluid))) / N)
